@@ -20,6 +20,7 @@ package pts
 //@     invariant len(readVerts) == parsedCount && len(readColors) == parsedCount && len(intensity) == parsedCount
 //@     invariant fresh(readVerts) && fresh(readColors) && fresh(intensity)
 //@     invariant columns_agree: curLine > 0 ==> fieldCount >= 3 && (readIntensity <==> fieldCount > 3) && (readColor <==> fieldCount > 6)
+//@     step every_row_has_the_columns_of_the_first: len(contents) == fieldCount && len(contents) >= 3
 //@     invariant no_flags_before_first_line: curLine == 0 ==> !readIntensity && !readColor
 
 //@ func ParseVec3 frameonly
